@@ -366,6 +366,185 @@ static void op_trunc(const std::string &desc, const std::string &val, const std:
     }
 }
 
+
+// ------------------------------------------------------------------ extension ops
+// capped buffer loads of archive.h: the payload is cut to the destination, the stream stays in step
+static void op_capped(char kind, const std::string &caps, const std::string &payhex, const std::string &desc,
+                      const std::string &val, const std::string &resthex, out &o)
+{
+    DT dt;
+    DV dv;
+    if (!dt_of(desc, dt) || !dv_of(dt, val, dv) || (kind != 'c' && kind != 'w' && kind != 'v')) { o.result = "bad-op"; o.fail("unparsable op"); return; }
+    if (!stack_a().has(desc)) { o.result = "unsupported"; o.fail("type not in the harness family: " + desc); return; }
+    size_t cap = strtoull(caps.c_str(), 0, 10);
+    bytes pb = unhex(payhex), rest = unhex(resthex);
+    std::string payload(pb.begin(), pb.end());
+    cap_out co = a_capped(kind, cap, payload, desc, dv, rest);
+    bytes ref;
+    ref_le(payload.size(), 2, ref);
+    ref.insert(ref.end(), pb.begin(), pb.end());
+    ref_enc(dt, dv, ref);
+    if (co.enc != ref) o.fail("encoded bytes differ from the documented layout");
+    std::string got = show(dt, co.val);
+    o.result = hex(co.enc) + " \"" + (co.got.empty() ? "" : hex(co.got)) + "\" " + got + " " + std::to_string(co.consumed);
+    size_t effcap = kind == 'c' ? (uint16_t)cap : cap;
+    if (co.got != payload.substr(0, std::min(effcap, payload.size()))) o.fail("capped load did not deliver the first min(cap,len) bytes of the payload");
+    if (!co.dst_clean) o.fail("capped load wrote outside the first min(cap,len) bytes of the destination");
+    if (got != val) o.fail("the value after a capped buffer load is not read back (stream out of step)");
+    if (co.consumed != co.enc.size()) o.fail("consumed " + std::to_string(co.consumed) + " bytes, serialize produced " + std::to_string(co.enc.size()));
+    o.tag(payload.size() > effcap ? "capped-short-destination" : payload.size() == effcap ? "capped-exact" : "capped-fits");
+    if (!rest.empty()) tag1(o, "rest-nonempty");
+}
+
+// binary_buffer_writer (memcpy into a caller-supplied buffer) writes what binary_string_writer writes
+static void op_binwriter(const std::string &desc, const std::string &val, out &o)
+{
+    DT dt;
+    DV dv;
+    if (!dt_of(desc, dt) || !dv_of(dt, val, dv)) { o.result = "bad-op"; o.fail("unparsable op"); return; }
+    if (!a_binwriter_has(desc)) { o.result = "unsupported"; o.fail("type not in the binwriter list: " + desc); return; }
+    bytes ref;
+    ref_enc(dt, dv, ref);
+    bytes e = a_binwriter(desc, dv, ref.size());
+    o.result = hex(e);
+    if (e != ref) o.fail("binary_buffer_writer bytes differ from the documented layout");
+    o.tag("binwriter");
+}
+
+// archive::data<T>(xs, N) inside a reflected type: raw image of N scalars, no count
+static void op_data(const std::string &key, const std::string &val, const std::string &resthex, out &o)
+{
+    size_t colon = key.find(':');
+    DT dt;
+    DV dv;
+    if (colon == std::string::npos || !dt_of("V(" + key.substr(0, colon) + ")", dt) || !dv_of(dt, val, dv)) { o.result = "bad-op"; o.fail("unparsable op"); return; }
+    if (!a_data_has(key)) { o.result = "unsupported"; o.fail("array type not in the harness family: " + key); return; }
+    size_t N = strtoull(key.c_str() + colon + 1, 0, 10);
+    int w = SCW[dt.kids[0].sc];
+    if (dv.kids.size() != N) { o.result = "bad-op"; o.fail("wrong element count"); return; }
+    std::vector<uint64_t> xs;
+    for (auto &k : dv.kids) xs.push_back(k.bits);
+    bytes rest = unhex(resthex);
+    bytes enc = a_data_enc(key, xs);
+    // reference: the N*w-byte little-endian image, cut to (N*w mod 65536) bytes by the uint16_t size parameter
+    bytes image;
+    for (uint64_t x : xs) ref_le(x, w, image);
+    size_t m = (N * (size_t)w) % 65536;
+    bytes ref(image.begin(), image.begin() + m);
+    if (enc != ref) o.fail("array image differs from the reference (" + std::to_string(enc.size()) + " bytes, expected " + std::to_string(ref.size()) + ")");
+    bytes input = enc;
+    input.insert(input.end(), rest.begin(), rest.end());
+    exact_buf eb(input);
+    size_t consumed = 0;
+    std::vector<uint64_t> back = a_data_dec(key, eb.p, eb.n, consumed);
+    DV bv;
+    for (uint64_t x : back) bv.kids.push_back(DV::scalar(x));
+    o.result = hex(enc) + " " + show(dt, bv) + " " + std::to_string(consumed);
+    if (N * (size_t)w <= 65535)
+    {
+        if (show(dt, bv) != val) o.fail("array does not round-trip");
+        o.tag("data-array");
+    }
+    else
+    {
+        // outside the domain (image > 65535 bytes): only the wrapped part travels, the rest reads back as zero
+        DV ev;
+        for (size_t i = 0; i < N; i++) ev.kids.push_back(DV::scalar((i + 1) * (size_t)w <= m ? xs[i] : 0));
+        if (show(dt, bv) != show(dt, ev)) o.fail("wrapped array image: decoded elements differ from the reference");
+        o.tag("data-array-wrap");
+    }
+    if (consumed != enc.size()) o.fail("consumed " + std::to_string(consumed) + " bytes, serialize produced " + std::to_string(enc.size()));
+}
+
+// beyond the 16-bit count (outside the property's domain): what exactly happens.  Top-level std::string and
+// vectors of scalars only.  Reference: count = n mod 65536; a string writes only that many bytes (stream stays in
+// step), a vector writes ALL n elements but the reader takes n mod 65536 of them (stream out of step).
+static void op_wrap(char st, const std::string &desc, const std::string &val, const std::string &resthex, out &o)
+{
+    stack_iface &S = stack_of(st);
+    DT dt;
+    DV dv;
+    if (!dt_of(desc, dt) || !dv_of(dt, val, dv)) { o.result = "bad-op"; o.fail("unparsable op"); return; }
+    bool isstr = dt.k == DT::STR, isvec = dt.k == DT::VEC && dt.kids[0].k == DT::SC;
+    if (!S.has(desc) || !(isstr || isvec)) { o.result = "unsupported"; o.fail("wrap op on an unsupported type: " + desc); return; }
+    bytes rest = unhex(resthex);
+    bytes enc = S.encode_seq({desc}, {dv});
+    size_t n = isstr ? dv.bytes.size() : dv.kids.size(), c = n % 65536;
+    bytes ref;
+    DV ev;
+    ref_le(c, 2, ref);
+    size_t expect_consumed;
+    if (isstr)
+    {
+        ref.insert(ref.end(), dv.bytes.begin(), dv.bytes.begin() + c);
+        ev.bytes = dv.bytes.substr(0, c);
+        expect_consumed = ref.size();
+    }
+    else
+    {
+        for (auto &k : dv.kids) ref_enc(dt.kids[0], k, ref);
+        ev.kids.assign(dv.kids.begin(), dv.kids.begin() + c);
+        expect_consumed = 2 + c * SCW[dt.kids[0].sc];
+    }
+    if (enc != ref) o.fail("beyond the 16-bit count: bytes differ from the reference (count mod 65536)");
+    bytes input = enc;
+    input.insert(input.end(), rest.begin(), rest.end());
+    exact_buf eb(input);
+    size_t consumed = 0;
+    std::vector<DV> back = S.decode_seq({desc}, eb.p, eb.n, consumed);
+    std::string got = show(dt, back[0]);
+    o.result = hex(enc) + " " + got + " " + std::to_string(consumed);
+    if (got != show(dt, ev) || consumed != expect_consumed) o.fail("beyond the 16-bit count: decoded value/position differ from the reference");
+    o.tag(n > 65535 ? "count-wrapped" : "count-max");
+    if (n > 65535 && consumed != enc.size()) tag1(o, "stream-out-of-step");
+}
+
+// serialize_storage_base::dumps + deserialize_storage::loads
+static void op_loads(const std::string &datahex, const std::string &nss, out &o)
+{
+    bytes d = unhex(datahex);
+    std::vector<size_t> ns;
+    {
+        std::istringstream is(nss);
+        std::string tk;
+        while (std::getline(is, tk, ',')) ns.push_back(strtoull(tk.c_str(), 0, 10));
+    }
+    size_t avail = 0;
+    std::vector<std::string> got = s_loads(std::string(d.begin(), d.end()), ns, avail);
+    size_t pos = 0;
+    for (size_t i = 0; i < ns.size(); i++)
+    {
+        std::string e(ns[i], '\0');
+        size_t len = std::min(ns[i], d.size() - pos);
+        if (len) memcpy(&e[0], d.data() + pos, len);
+        pos += len;
+        if (got[i] != e) o.fail("loads(" + std::to_string(ns[i]) + ") is not the available prefix padded with zeros");
+        if (len < ns[i]) tag1(o, "truncated");
+        o.result += (i ? "|" : "") + hex(got[i]);
+    }
+    o.result += " " + std::to_string(avail);
+    if (avail != d.size() - pos) o.fail("storage cursor differs from the reference");
+    o.tag("storage-loads");
+}
+
+// FINDING PROBE: the archive reader on a truncated encoding (binary_buffer_reader never looks at _end)
+static void op_trunc_a(const std::string &desc, const std::string &val, const std::string &ks, out &o)
+{
+    DT dt;
+    DV dv;
+    if (!dt_of(desc, dt) || !dv_of(dt, val, dv)) { o.result = "bad-op"; o.fail("unparsable op"); return; }
+    if (!stack_a().has(desc)) { o.result = "unsupported"; o.fail("type not in the harness family: " + desc); return; }
+    bytes enc = stack_a().encode_seq({desc}, {dv});
+    size_t k = std::min<size_t>(strtoull(ks.c_str(), 0, 10), enc.size());
+    bytes pre(enc.begin(), enc.begin() + k);
+    exact_buf eb(pre);
+    size_t consumed = 0;
+    DV back = a_decode_raw(desc, eb.p, eb.n, consumed); // ASan stops here when a byte outside the input is read
+    o.result = show(dt, back) + "@" + std::to_string(consumed);
+    if (consumed > k) o.fail("archive reader position beyond the supplied bytes");
+    o.tag("truncated-archive-reader");
+}
+
 static void run_op(const std::vector<std::string> &w, const std::string &, out &o)
 {
     if (w.empty()) { o.result = "bad-op"; return; }
@@ -382,6 +561,22 @@ static void run_op(const std::vector<std::string> &w, const std::string &, out &
         }
         return;
     }
+    if (op == "sizes2" && w.size() == 1)
+    {
+        // the further arithmetic types of the serializer stack: bool, char, long long, unsigned long long
+        for (int i = 0; i < 4; i++)
+        {
+            bytes e = stack_s().encode_seq({ALN[i]}, {DV::scalar(0)});
+            o.result += (i ? " " : "") + std::to_string(e.size());
+        }
+        return;
+    }
+    if (op == "cap" && w.size() == 7) return op_capped(w[1].size() == 1 ? w[1][0] : '?', w[2], w[3], w[4], w[5], w[6], o);
+    if (op == "bw" && w.size() == 3) return op_binwriter(w[1], w[2], o);
+    if (op == "dat" && w.size() == 4) return op_data(w[1], w[2], w[3], o);
+    if ((op == "wa" || op == "ws") && w.size() == 4) return op_wrap(op[1], w[1], w[2], w[3], o);
+    if (op == "sl" && w.size() == 3) return op_loads(w[1], w[2], o);
+    if (op == "ta" && w.size() == 4) return op_trunc_a(w[1], w[2], w[3], o);
     if ((op == "a" || op == "s") && w.size() == 4) return op_roundtrip(op[0], {w[1]}, {w[2]}, w[3], o);
     if ((op == "seqa" || op == "seqs") && w.size() >= 4 && w.size() % 2 == 0)
     {
@@ -446,7 +641,7 @@ static DV gen_val(const DT &t, rng &r, size_t cap)
     size_t sub = cap > 8 ? 4 : cap > 2 ? 3 : 2;
     switch (t.k)
     {
-    case DT::SC: v.bits = gen_scalar(t.sc, r); break;
+    case DT::SC: v.bits = t.alias == 1 ? r.below(2) : gen_scalar(t.sc, r); break; // bool: 0/1 only
     case DT::STR:
     case DT::BUF: v.bytes = gen_bytes(r, gen_len(r, cap)); break;
     case DT::VEC:
@@ -609,24 +804,27 @@ static void gen(rng &r, const std::string &tier)
             }
     }
     // (3) random values of every type of both families
-    int reps = th ? 300 : 14;
-    for (auto &d : fa)
+    int reps = th ? 300 : 14, greps = th ? 60 : 5; // greps: the mechanically generated grid types
+    size_t ha_n = stack_a().n_hand(), hs_n = stack_s().n_hand();
+    for (size_t di = 0; di < fa.size(); di++)
     {
+        const std::string &d = fa[di];
         DT t;
         dt_of(d, t);
         if (t.k == DT::SC) continue;
-        for (int i = 0; i < reps; i++)
+        for (int i = 0; i < (di < ha_n ? reps : greps); i++)
         {
             size_t cap = i % 7 == 6 ? 300 : i % 3 == 0 ? 3 : 12;
             emit_rt('a', d, t, gen_val(t, r, cap), gen_rest(r));
         }
     }
-    for (auto &d : fs)
+    for (size_t di = 0; di < fs.size(); di++)
     {
+        const std::string &d = fs[di];
         DT t;
         dt_of(d, t);
-        if (t.k == DT::SC) continue;
-        for (int i = 0; i < reps; i++)
+        if (t.k == DT::SC && !t.alias) continue;
+        for (int i = 0; i < (di < hs_n ? reps : greps); i++)
         {
             size_t cap = i % 7 == 6 ? 300 : i % 3 == 0 ? 3 : 12;
             DV v = gen_val(t, r, cap);
@@ -750,11 +948,84 @@ static void gen(rng &r, const std::string &tier)
     for (int i = 0; i < (th ? 2000 : 80); i++)
     {
         const std::string &d = fs[r.below(fs.size())];
+        if (d.find("b8") != std::string::npos) { i--; continue; } // arbitrary bytes are not valid object representations of bool
         size_t n = r.below(25);
         bytes b(n);
         for (auto &x : b) x = r.chance(85) ? (uint8_t)r.below(3) : r.chance(70) ? (uint8_t)r.below(16) : (uint8_t)r.next();
         if (n >= 2 && r.chance(90)) b[1] = (uint8_t)r.below(2); // keep the outer count moderate
         printf("ds %s %s\n", d.c_str(), hex(b).c_str());
+    }
+    // (7) extension: the remaining entry points
+    puts("sizes2");
+    {
+        // capped buffer loads: payload length x destination capacity around each other and around 255/256/65535
+        const char *follow[] = {"u8", "u16", "str", "V(u8)", "P(u8,i32)", "M(u8,u8)"};
+        const char kinds[3] = {'c', 'w', 'v'};
+        std::vector<std::pair<size_t, size_t>> lc; // (len, cap)
+        for (size_t len : {0, 1, 2, 3, 5})
+            for (size_t cap : {0, 1, 2, 3, 4, 6}) lc.push_back({len, cap});
+        for (size_t x : {255, 256, 257}) { lc.push_back({x, x}); lc.push_back({x, x - 1}); lc.push_back({x - 1, x}); lc.push_back({x, 1}); }
+        lc.push_back({65535, 65535}); lc.push_back({65535, 65534}); lc.push_back({65535, 0}); lc.push_back({300, 70000}); lc.push_back({65535, 65536});
+        for (int i = 0; i < (th ? 300 : 40); i++) lc.push_back({r.below(40), r.below(40)});
+        size_t idx = 0;
+        for (auto &p : lc)
+            for (char kind : kinds)
+            {
+                if (p.first > 300 && !th && kind == 'v') continue;
+                const char *d = follow[(idx++) % 6];
+                DT t;
+                dt_of(d, t);
+                printf("cap %c %zu %s %s %s %s\n", kind, p.second, hex(gen_bytes(r, p.first)).c_str(), d, show(t, gen_val(t, r, 3)).c_str(), gen_rest(r).c_str());
+            }
+        // binary_buffer_writer
+        for (const char *d : {"u8", "i16", "u32", "i64", "f32", "f64", "str", "V(u8)", "V(str)", "V(V(u8))", "V(i32)"})
+        {
+            DT t;
+            dt_of(d, t);
+            for (int i = 0; i < (th ? 40 : 4); i++) printf("bw %s %s\n", d, show(t, gen_val(t, r, i % 2 ? 300 : 4)).c_str());
+        }
+        // archive::data<T>(xs, N)
+        for (auto &key : a_data_keys())
+        {
+            size_t colon = key.find(':');
+            DT t;
+            dt_of("V(" + key.substr(0, colon) + ")", t);
+            size_t N = strtoull(key.c_str() + colon + 1, 0, 10);
+            if (!th && N > 60000 && N != 65536 && N != 65535) continue;
+            for (int i = 0; i < (N > 100 ? 1 : th ? 30 : 4); i++)
+                printf("dat %s %s %s\n", key.c_str(), show(t, vec_of(t.kids[0].sc, N, r, N > 100 || i % 2)).c_str(), gen_rest(r).c_str());
+        }
+        // beyond the 16-bit count
+        {
+            DT ts, tv8, tv16, tv32;
+            dt_of("str", ts); dt_of("V(u8)", tv8); dt_of("V(u16)", tv16); dt_of("V(i32)", tv32);
+            for (size_t n : {(size_t)65535, (size_t)65536, (size_t)65537, (size_t)65791, (size_t)131072})
+            {
+                if (!th && n > 65791) continue;
+                printf("wa str %s %s\n", show(ts, DV::str(gen_bytes(r, n))).c_str(), gen_rest(r).c_str());
+                printf("wa V(u8) %s %s\n", show(tv8, vec_of(0, n, r, true)).c_str(), gen_rest(r).c_str());
+                printf("ws V(u8) %s %s\n", show(tv8, vec_of(0, n, r, false)).c_str(), gen_rest(r).c_str());
+                if (n == 65536 || th) printf("wa V(i32) %s %s\n", show(tv32, vec_of(5, n, r, true)).c_str(), gen_rest(r).c_str());
+                if (n == 65537 || th) printf("ws V(u16) %s %s\n", show(tv16, vec_of(2, n, r, true)).c_str(), gen_rest(r).c_str());
+            }
+        }
+        // storage dumps/loads
+        for (int i = 0; i < (th ? 400 : 40); i++)
+        {
+            static const size_t sz[] = {0, 1, 2, 3, 5, 8, 30};
+            std::string ns;
+            int k = (int)r.range(1, 4);
+            for (int j = 0; j < k; j++) ns += (j ? "," : "") + std::to_string(sz[r.below(7)]);
+            printf("sl %s %s\n", hex(gen_bytes(r, r.below(20))).c_str(), ns.c_str());
+        }
+    }
+    // (8) probes of the recorded finding C09-archive-reader-unbounded: the archive reader on a truncated encoding
+    {
+        struct { const char *d; const char *v; int k; } pr[] = {
+            {"u32", "01020304", 2}, {"str", "\"616263\"", 4}, {"V(i16)", "[0001,0002]", 5}, {"M(u8,str)", "{01:\"41\"}", 3},
+            {"u8", "07", 0}, {"P(u8,i32)", "(01,00000002)", 1}, {"V(str)", "[\"41\",\"4242\"]", 6}, {"S(u8,i32,i16)", "(01,00000002,0003)", 6},
+        };
+        for (int i = 0; i < (th ? 8 : 4); i++) printf("@F:C09-archive-reader-unbounded ta %s %s %d\n", pr[i].d, pr[i].v, pr[i].k);
     }
 }
 
